@@ -28,6 +28,23 @@ def encoder():
     return _ENC['e']
 
 
+_CENC = _CDEC = None
+
+
+def compiled_encoder():
+    global _CENC
+    if _CENC is None:
+        _CENC = sut.Encoder(compiled_template_cache_max=4)
+    return _CENC
+
+
+def compiled_decoder():
+    global _CDEC
+    if _CDEC is None:
+        _CDEC = sut.Decoder(compiled_template_cache_max=4)
+    return _CDEC
+
+
 def decoder():
     if 'd' not in _DEC:
         _DEC['d'] = sut.Decoder()
@@ -410,6 +427,34 @@ def check_fix(fc):
         out.fail('re-encoding the rendering of a message that the encoder produced does not give the identical bytes',
                  n_first=len(e0.value.serialized_bytes), n_second=len(e1.value.serialized_bytes))
     fixpoint_of_bytes(out, fc.bytes, 'foreign message')
+    # the round trip with template compilation on one side only (a documented constructor argument of both coders): what a
+    # compiling encoder writes a plain decoder must read back as the given values, and the other way round.  Only for
+    # templates in the domain of compilation (operators opened and closed inside one replication scope, C08).
+    if not out.failures and not case.decoded.unbalanced():
+        out.classes.append('round_trip_with_compilation_on_one_side')
+        v0 = sut.call(lambda: sut.observe(decoder().process(e0.value.serialized_bytes))['values'])
+        if not v0.ok:
+            return out
+        ec = sut.call(compiled_encoder().process, x)
+        if not ec.ok:
+            out.fail('a template-compiling encoder refuses values that the plain encoder accepts: %s@%s' % (ec.exc_type, ec.frame),
+                     error=ec.msg)
+        else:
+            vc = sut.call(lambda: sut.observe(decoder().process(ec.value.serialized_bytes))['values'])
+            if not vc.ok:
+                out.fail('what a template-compiling encoder wrote does not decode: %s@%s' % (vc.exc_type, vc.frame), error=vc.msg)
+            elif sut.norm_json(vc.value) != sut.norm_json(v0.value):
+                d = _first_altered(v0.value, vc.value)
+                out.fail('values written by a template-compiling encoder read back altered (plain decoder)',
+                         subset=d and d[0], index=d and d[1], plain=d and d[2], compiled=d and d[3])
+        vd = sut.call(lambda: sut.observe(compiled_decoder().process(e0.value.serialized_bytes))['values'])
+        if not vd.ok:
+            out.fail('a template-compiling decoder cannot read what the plain encoder wrote: %s@%s' % (vd.exc_type, vd.frame),
+                     error=vd.msg)
+        elif sut.norm_json(vd.value) != sut.norm_json(v0.value):
+            d = _first_altered(v0.value, vd.value)
+            out.fail('values written by the plain encoder read back altered (template-compiling decoder)',
+                     subset=d and d[0], index=d and d[1], plain=d and d[2], compiled=d and d[3])
     return out
 
 
